@@ -169,3 +169,148 @@ theorem removeRec_spec : ∀ (f : Nat) (s : Pool) (id n : Nat), PoolOk s → Poo
     exact NoSp.mono (removeOne_sublist s1 id) (f2 i (Or.inl (List.mem_range.2 hi)))
 
 end BV.C10.Lemmas
+
+namespace BV.C10.Lemmas
+open BV.C10 BV.C10.Spec
+
+/-! ### `txDescendants` / `txConflicts` are closed under pooled redeemers -/
+
+def ChildOf (u m : TxAbs) : Prop := ∃ x ∈ u.ins, OutputOf x m
+
+def ClosedSet (s : Pool) (R : List TxAbs) : Prop :=
+  ∀ m ∈ s.txs, hasId R m.id → ∀ u ∈ s.txs, ChildOf u m → hasId R u.id
+
+theorem insertTx_hasId_iff {l : List TxAbs} {t : TxAbs} {id : Nat} :
+    hasId (insertTx l t) id ↔ hasId l id ∨ id = t.id := by
+  constructor
+  · rintro ⟨u, hu, e⟩
+    rcases insertTx_sub hu with h | h
+    · exact Or.inl ⟨u, h, e⟩
+    · right; rw [← e, h]
+  · rintro (h | h)
+    · exact insertTx_mono h
+    · rw [h]; exact insertTx_self l t
+
+theorem unionTx_hasId_iff {l m : List TxAbs} {id : Nat} : hasId (unionTx l m) id ↔ hasId l id ∨ hasId m id := by
+  constructor
+  · rintro ⟨u, hu, e⟩
+    rcases unionTx_sub m l hu with h | h
+    · exact Or.inl ⟨u, h, e⟩
+    · exact Or.inr ⟨u, h, e⟩
+  · rintro (h | h)
+    · exact unionTx_mono m h
+    · -- every element of m is inserted
+      obtain ⟨u, hu, e⟩ := h
+      suffices ∀ (m l : List TxAbs), u ∈ m → hasId (unionTx l m) u.id by
+        obtain ⟨v, hv, e'⟩ := this m l hu
+        exact ⟨v, hv, by rw [e']; exact e⟩
+      intro m
+      induction m with
+      | nil => intro l h; cases h
+      | cons a m ih =>
+        intro l h
+        have : unionTx l (a :: m) = unionTx (insertTx l a) m := by simp [unionTx]
+        rw [this]
+        rcases List.mem_cons.1 h with rfl | h'
+        · exact unionTx_mono m (insertTx_self l _)
+        · exact ih _ h'
+
+theorem closedSet_union {s : Pool} {A B : List TxAbs} (ha : ClosedSet s A) (hb : ClosedSet s B) :
+    ClosedSet s (unionTx A B) := by
+  intro m hm hid u hu hc
+  rcases unionTx_hasId_iff.1 hid with h | h
+  · exact unionTx_hasId_iff.2 (Or.inl (ha m hm h u hu hc))
+  · exact unionTx_hasId_iff.2 (Or.inr (hb m hm h u hu hc))
+
+theorem closedSet_nil (s : Pool) : ClosedSet s [] := by
+  intro m _ h; obtain ⟨u, hu, _⟩ := h; cases hu
+
+/-- `acc ∪ {d} ∪ D` is closed when `acc` and `D` are, and `D` holds the children of `d` -/
+theorem closedSet_step {s : Pool} (ok : PoolOk s) {acc D : List TxAbs} {d : TxAbs} (hd : d ∈ s.txs)
+    (ha : ClosedSet s acc) (hD : ClosedSet s D) (hch : ∀ u ∈ s.txs, ChildOf u d → hasId D u.id) :
+    ClosedSet s (unionTx (insertTx acc d) D) := by
+  intro m hm hid u hu hc
+  rcases unionTx_hasId_iff.1 hid with h | h
+  · rcases insertTx_hasId_iff.1 h with h' | h'
+    · exact unionTx_mono _ (insertTx_mono (ha m hm h' u hu hc))
+    · have : m = d := ok.idFun m hm d hd h'
+      subst this
+      exact unionTx_hasId_iff.2 (Or.inr (hch u hu hc))
+  · exact unionTx_hasId_iff.2 (Or.inr (hD m hm h u hu hc))
+
+theorem txDescendants_spec {s : Pool} (ok : PoolOk s) (rk : PoolRanked s) : ∀ (f : Nat) (t : TxAbs),
+    t ∈ s.txs → cnt s t.id < f →
+    (∀ u ∈ s.txs, ChildOf u t → hasId (txDescendants f s t) u.id) ∧ ClosedSet s (txDescendants f s t)
+  | 0, _, _, h => by omega
+  | f + 1, t, ht, hf => by
+    unfold txDescendants
+    have fold : ∀ (l : List Nat) (acc : List TxAbs), ClosedSet s acc →
+        ClosedSet s (l.foldl (fun acc i => match s.spender ⟨t.id, i⟩ with
+          | some d => unionTx (insertTx acc d) (txDescendants f s d)
+          | none => acc) acc) ∧
+        ∀ (i : Nat) (u : TxAbs), u ∈ s.txs → (⟨t.id, i⟩ : OutPoint) ∈ u.ins → (i ∈ l ∨ hasId acc u.id) →
+          hasId (l.foldl (fun acc i => match s.spender ⟨t.id, i⟩ with
+          | some d => unionTx (insertTx acc d) (txDescendants f s d)
+          | none => acc) acc) u.id := by
+      intro l
+      induction l with
+      | nil => intro acc ha; exact ⟨ha, fun i u _ _ h => by simpa using h⟩
+      | cons j l ih =>
+        intro acc ha
+        simp only [List.foldl_cons]
+        have step : ClosedSet s (match s.spender ⟨t.id, j⟩ with
+            | some d => unionTx (insertTx acc d) (txDescendants f s d)
+            | none => acc) ∧
+            (∀ u : TxAbs, hasId acc u.id → hasId (match s.spender ⟨t.id, j⟩ with
+            | some d => unionTx (insertTx acc d) (txDescendants f s d)
+            | none => acc) u.id) ∧
+            (∀ u ∈ s.txs, (⟨t.id, j⟩ : OutPoint) ∈ u.ins → hasId (match s.spender ⟨t.id, j⟩ with
+            | some d => unionTx (insertTx acc d) (txDescendants f s d)
+            | none => acc) u.id) := by
+          cases hs : s.spender ⟨t.id, j⟩ with
+          | none =>
+            exact ⟨ha, fun u h => h, fun u hu hx => absurd hx (noSp_of_spender_none ok hs u hu)⟩
+          | some d =>
+            simp only
+            obtain ⟨hd1, hd2⟩ := (ok.idx _ d).1 (spender_some hs)
+            have hlt : t.id < d.id := rk d hd1 _ hd2
+            have hc := cnt_child hd1 hlt
+            obtain ⟨a1, a2⟩ := txDescendants_spec ok rk f d hd1 (by omega)
+            refine ⟨closedSet_step ok hd1 ha a2 a1, fun u h => unionTx_mono _ (insertTx_mono h), ?_⟩
+            intro u hu hx
+            have : u = d := ok.nds u hu d hd1 _ hx hd2
+            subst this
+            exact unionTx_mono _ (insertTx_self _ _)
+        obtain ⟨s1, s2, s3⟩ := step
+        obtain ⟨i1, i2⟩ := ih _ s1
+        refine ⟨i1, ?_⟩
+        intro i u hu hx hi
+        apply i2 i u hu hx
+        rcases hi with hi | hi
+        · rcases List.mem_cons.1 hi with rfl | hi'
+          · exact Or.inr (s3 u hu hx)
+          · exact Or.inl hi'
+        · exact Or.inr (s2 u hi)
+    obtain ⟨f1, f2⟩ := fold (List.range t.nOuts) [] (closedSet_nil s)
+    refine ⟨?_, f1⟩
+    intro u hu hc
+    obtain ⟨x, hx, o1, o2⟩ := hc
+    have hx' : (⟨t.id, x.idx⟩ : OutPoint) = x := by
+      cases x; simp only at o1; simp only [OutPoint.mk.injEq, and_true]; exact o1
+    exact f2 x.idx u hu (by rw [hx']; exact hx) (Or.inl (List.mem_range.2 o2))
+
+theorem txConflicts_closed {s : Pool} (ok : PoolOk s) (rk : PoolRanked s) (t : TxAbs) :
+    ClosedSet s (txConflicts s t) := by
+  rw [txConflicts_eq]
+  apply foldl_inv (ClosedSet s) _ _ _ _ (closedSet_nil s)
+  intro acc x ha
+  unfold conflictStep
+  cases hs : s.spender x with
+  | none => exact ha
+  | some c =>
+    simp only
+    obtain ⟨hc1, _⟩ := (ok.idx _ c).1 (spender_some hs)
+    obtain ⟨a1, a2⟩ := txDescendants_spec ok rk (fuelOf s) c hc1 (cnt_lt_fuel s c.id)
+    exact closedSet_step ok hc1 ha a2 a1
+
+end BV.C10.Lemmas
